@@ -282,6 +282,8 @@ pub fn gen_scenario(rng : &mut Rng, params : &GenParams) -> Scenario
                     2 => { script.pop(); if script.is_empty() { script.push(format!("true {}", targets[0])); } },   // omits (at least the chmod or) a target
                     3 => { script = vec![]; },                                                           // no command at all
                     4 => { script = vec![format!("gen {} @no-such-file", targets[0])]; },               // fails without writing
+                    5 => { let at = rng.below(script.len().max(1)); script.insert(at, "fail".to_string()); },   // a line that is not the last one fails; the later ones succeed
+                    6 => { script.insert(0, format!("gen {}.tmp @no-such-file", targets[0])); },          // the first line fails, the rest succeeds
                     _ => {},
                 }
             },
